@@ -1,9 +1,9 @@
 SPECIFICATION Spec
 CONSTANTS Cfg <- TheCfg
  Wedge = FALSE
- MakeOnPending = "replace"
+ MakeOnPending = "cancel"
  FireDropsBs = FALSE
- MaxN = 5
+ MaxN = 4
 CONSTRAINT Bound
 VIEW View
 INVARIANT DoorsWellFormed
